@@ -48,4 +48,4 @@ if __import__('os').environ.get('DBG_SPLIT'):
                 if rr[0] != 'unsat':
                     rc = D._run_cvc5(D.to_smt2(pc, c), 5000, 0, False)
                     print('  ', rr[0], rc[0], str(c).replace('\n', ' ')[:600])
-            break
+            if not __import__('os').environ.get('DBG_ALLSPLIT'): break
